@@ -48,7 +48,10 @@ def parsePlan (toks : List String) : List (Nat × Action) :=
     | [k, a] => match k.toNat? with
       | some k => if a == "s" then some (k, .skipDir)
                   else if a == "a" then some (k, Action.skipAll)
-                  else if a.startsWith "e" then (a.drop 1).toString.toNat?.map fun c => (k, .error c) else none
+                  -- eN: error number N; wN / vN: error number N that wraps SkipDir / SkipAll — still an error of
+                  -- the callback's own (filepath.Walk compares with ==)
+                  else if a.startsWith "e" || a.startsWith "w" || a.startsWith "v" then
+                    (a.drop 1).toString.toNat?.map fun c => (k, .error c) else none
       | none => none
     | _ => none
 
